@@ -22,7 +22,6 @@ package dispatcher
 
 import (
 	"errors"
-	"strings"
 
 	errorsmod "cosmossdk.io/errors"
 
@@ -38,10 +37,9 @@ func (a DispatchedAmountEntry) Validate() error {
 		return errors.New("cannot set empty denom")
 	}
 
-	// NOTE: the denom is used as a non terminal element of composite
-	// store keys, where the null character is the string delimiter.
-	if strings.Contains(a.Denom, "\x00") {
-		return errors.New("denom cannot contain the null character")
+	// NOTE: the denom is used as a non terminal element of composite store keys.
+	if err := core.ValidateKeyString(a.Denom); err != nil {
+		return errorsmod.Wrap(err, "denom")
 	}
 
 	if a.SourceId == nil {
